@@ -3,6 +3,7 @@ package fragswarm
 import (
 	"context"
 	"encoding/binary"
+	"math"
 	"runtime"
 	"sync"
 	"time"
@@ -15,6 +16,10 @@ import (
 )
 
 const Overhead = 3 * binary.MaxVarintLen32
+
+// maxParts is the largest number of parts a message can be split into:
+// the part index and the part count are 8 bit values in the header.
+const maxParts = math.MaxUint8
 
 func New[A p2p.Addr](x p2p.Swarm[A], mtu int) p2p.Swarm[A] {
 	return newSwarm[A](x, mtu)
@@ -54,7 +59,7 @@ func newSwarm[A p2p.Addr](x p2p.Swarm[A], mtu int) *swarm[A] {
 }
 
 func (s *swarm[A]) Tell(ctx context.Context, addr A, data p2p.IOVec) error {
-	if p2p.VecSize(data) > s.mtu {
+	if p2p.VecSize(data) > s.MTU() {
 		return p2p.ErrMTUExceeded
 	}
 	underMTU := s.Swarm.MTU() - Overhead
@@ -153,7 +158,12 @@ func (s *swarm[A]) handleTell(ctx context.Context, x p2p.Message[A]) error {
 	return err
 }
 
+// MTU returns the configured MTU, or the largest message which can be sent
+// in maxParts parts over the underlying swarm if that is smaller.
 func (s *swarm[A]) MTU() int {
+	if m := (s.Swarm.MTU() - Overhead) * maxParts; m < s.mtu {
+		return m
+	}
 	return s.mtu
 }
 
